@@ -40,6 +40,35 @@ NESTED = [
 ]
 
 
+class MyH(xgi.Hypergraph):
+    """trivial subclasses: the statement quantifies over all input networks, and `type(H) == Hypergraph` idioms exist"""
+    _c08_base = "Hypergraph"
+
+
+class MyD(xgi.DiHypergraph):
+    _c08_base = "DiHypergraph"
+
+
+class MyS(xgi.SimplicialComplex):
+    _c08_base = "SimplicialComplex"
+
+
+FAMILY_CLASSES = {"MyH": MyH, "MyD": MyD, "MyS": MyS}
+
+
+def base_class_name(net):
+    return getattr(type(net), "_c08_base", type(net).__name__)
+
+
+def _decid(x):
+    """JSON ID -> Python ID ({"$tuple": [...]} is a tuple; a replay file cannot hold tuples)"""
+    if isinstance(x, dict) and set(x) == {"$tuple"}:
+        return tuple(_decid(y) for y in x["$tuple"])
+    if isinstance(x, list):
+        return [_decid(y) for y in x]
+    return x
+
+
 def spec(cls, nodes, edges, net=None, frozen=False, label=""):
     return {"cls": cls, "nodes": nodes, "edges": edges, "net": net or {}, "frozen": frozen, "label": label}
 
@@ -86,6 +115,41 @@ def fixed_specs():
     return out
 
 
+def family_specs(rng):
+    """REGIME / CLASS / LABEL families (review 2): networks large enough to cross size thresholds (>= 70 IDs, >= 130 parallel
+    edges, >= 64 distinct edges, an integer label above 2**53), trivial subclasses of the three classes, tuple node labels and
+    tuple edge IDs.  `large` specs are visited with default arguments by the functions and network methods only."""
+    T = lambda *xs: {"$tuple": list(xs)}
+    big = 2 ** 53 + 1
+    n = 72
+    ids = list(range(n - 2)) + [big, big + 2]
+    star = [[[ids[0], ids[i], ids[i + 1]], "$auto", {}] for i in range(1, 67)]            # 66 distinct triangles around node 0
+    par = [[[ids[3], ids[4], ids[5]], "$auto", ({"weight": 2} if k == 0 else {})] for k in range(132)]   # 132 parallel edges
+    hg_large = spec("Hypergraph", [[i, ({"weight": 1} if i == 0 else {})] for i in ids], star + par + [[[ids[-1], ids[-2]], big + 7, NESTED[0]]],
+                    {"name": "large", "info": {"l": [1]}}, label="hg-large")
+    hg_large["large"] = True
+    dh_large = spec("DiHypergraph", [[i, {}] for i in ids],
+                    [[[[ids[0], ids[i]], [ids[i + 1]]], "$auto", {}] for i in range(1, 67)] + [[[[ids[3]], [ids[4], ids[5]]], "$auto", {}] for k in range(132)],
+                    {"name": "large"}, label="dh-large")
+    dh_large["large"] = True
+    sc_large = spec("SimplicialComplex", [[i, {}] for i in ids], [[[ids[i], ids[i + 1], ids[i + 2]], "$auto", {}] for i in range(0, n - 2)],
+                    {"name": "large"}, label="sc-large")
+    sc_large["large"] = True
+    my_h = spec("MyH", [[0, NESTED[0]], ["a", NESTED[1]], [5, {}], [7, {}]], [[[0, "a"], 0, NESTED[2]], [[0, 5, 7], "e", NESTED[0]], [[5, 7], "$auto", {}], [[0, "a"], "$auto", {}]],
+                {"name": "sub", "info": {"l": [1]}}, label="sub-hg")
+    my_s = spec("MyS", [[i, {"weight": 1}] for i in range(5)], [[[0, 1, 2], "$auto", {"weight": 2}], [[2, 3], "$auto", {}], [[3, 4], "$auto", NESTED[1]]], {"name": "sub"}, label="sub-sc")
+    my_d = spec("MyD", [[i, {"weight": 1}] for i in range(5)], [[[[0, 1], [2]], "$auto", {"weight": 2}], [[[2], [3, 4]], "$auto", {}], [[[1, 4], [0]], 7, NESTED[2]]], {"name": "sub"}, label="sub-dh")
+    nodes_t = [T(0, 0), T(0, 1), T(1, 1), "a", 3]
+    hg_tuple = spec("Hypergraph", [[x, ({"weight": 1} if i == 0 else {})] for i, x in enumerate(nodes_t)],
+                    [[[T(0, 0), T(0, 1), "a"], T(1, 2), {"weight": 2}], [[T(0, 1), T(1, 1)], T("e", 0), NESTED[0]], [[T(1, 1), 3, "a"], "$auto", {}], [[3], 5, {}]],
+                    {"name": "tuple"}, label="hg-tuple")
+    dh_tuple = spec("DiHypergraph", [[x, {}] for x in nodes_t],
+                    [[[[T(0, 0)], [T(0, 1), "a"]], 4, {"weight": 2}], [[[T(0, 1), 3], [T(1, 1)]], T(1, 2), NESTED[1]], [[["a"], [3]], "$auto", {}]],
+                    {"name": "tuple"}, label="dh-tuple")
+    sc_tuple = spec("SimplicialComplex", [[x, {}] for x in nodes_t], [[[T(0, 0), T(0, 1), "a"], T(9, 9), {"weight": 2}], [[T(1, 1), 3], "$auto", {}]], {"name": "tuple"}, label="sc-tuple")
+    return [hg_large, dh_large, sc_large, my_h, my_s, my_d, hg_tuple, dh_tuple, sc_tuple]
+
+
 def random_spec(rng, k):
     cls = rng.choice(["Hypergraph", "Hypergraph", "SimplicialComplex", "DiHypergraph"])
     pools = [list(range(6)), [0, 1, 2, 3, 4, 7], ["a", "b", "c", "d", "e"], [0, "a", 2, "b", 5], [3, 1, 0, 2, 9, 4]]
@@ -121,24 +185,26 @@ def _mutables_in(v, acc):
 
 def build(sp):
     """-> (network, ids of the nested mutable attribute values the caller supplied) ; public API only"""
-    cls = getattr(xgi, sp["cls"])
+    cls = FAMILY_CLASSES.get(sp["cls"]) or getattr(xgi, sp["cls"])
     H = cls()
     nested = set()
+    di, sc = issubclass(cls, xgi.DiHypergraph), issubclass(cls, xgi.SimplicialComplex)
     with warnings.catch_warnings():
         warnings.simplefilter("ignore")
         for n, a in sp["nodes"]:
             a = _dec(copy.deepcopy(a))
             for v in a.values():
                 _mutables_in(v, nested)
-            H.add_node(n, **a)
+            H.add_node(_decid(n), **a)
         for ms, idx, a in sp["edges"]:
+            ms, idx = _decid(ms), _decid(idx)
             a = _dec(copy.deepcopy(a))
             for v in a.values():
                 _mutables_in(v, nested)
             kw = {} if idx == "$auto" else {"idx": idx}
-            if sp["cls"] == "SimplicialComplex":
+            if sc:
                 H.add_simplex(list(ms), **kw, **a)
-            elif sp["cls"] == "DiHypergraph":
+            elif di:
                 H.add_edge((list(ms[0]), list(ms[1])), **kw, **a)
             else:
                 H.add_edge(list(ms), **kw, **a)
@@ -570,6 +636,12 @@ def _table_candidates(pname, net, domain, default, env, has_literals=False):
         "incoming_data": [None, [[1, 2]]], "rename": ["tuple", "new"], "merge_rule": ["first", "union"],
         "multi_edge_attr": ["multiplicity"],
     }
+    # CONTAINER family: where the documentation says "iterable", every kind of iterable of IDs must be usable and none of them
+    # may make the function write to the network (a set handed in must not become a stored member set, a generator must not be
+    # consumed into the tables): tuple, set, frozenset, dict-keys view, generator, numpy array, the network's own live view
+    for pn, dom in (("bunch", domain), ("nodes", "node"), ("edges", "edge"), ("nbunch", "node"), ("ebunch", "edge"), ("other", domain)):
+        if pn in table and (edges if dom == "edge" else nodes):
+            table[pn] = list(table[pn]) + [f"$as:{kind}:{dom or 'node'}" for kind in ("tuple", "set", "frozenset", "keys", "gen", "nparray", "view")]
     if domain == "mutator":                            # arguments with which a declared mutator has something to do
         table.update({"node": ["$fresh"] + nodes[:1], "idx": edges[:1] + [50], "state": ["$state", {}], "n": nodes[:1] + ["$fresh"],
                       "ebunch_to_add": [[_subset(nodes, 2) + ["$fresh"]], [["$fresh", "$fresh2"]]]})
@@ -632,6 +704,26 @@ def resolve(v, net, env):
             return np.zeros((sum(1 for e in net.edges if len(net.edges.members(e)) == o + 1), 1)) + 0.1
         if v == "$ones":
             return np.ones(net.num_nodes)
+        if v.startswith("$as:"):
+            _, kind, dom = v.split(":")
+            ids = list(net.edges if dom == "edge" else net.nodes)[:3]
+            if kind == "tuple":
+                return tuple(ids)
+            if kind == "set":
+                return set(ids)
+            if kind == "frozenset":
+                return frozenset(ids)
+            if kind == "keys":
+                return dict.fromkeys(ids).keys()
+            if kind == "gen":
+                return (i for i in ids)
+            if kind == "view":
+                return net.edges if dom == "edge" else net.nodes
+            try:
+                arr = np.array(ids)
+                return arr if arr.ndim == 1 and arr.dtype != object and arr.dtype.kind in "iu" else ids
+            except Exception:  # noqa
+                return ids
         if v.startswith("$type:"):
             return {"list": list, "dict": dict, "set": set}[v[6:]]
         if v.startswith("$class:"):
@@ -681,6 +773,105 @@ def encode(v):
     if isinstance(v, (np.floating,)):
         return float(v)
     return v
+
+
+UNSTABLE = ("unstable",)
+_LIVE_CACHE = []
+
+
+def image(v, _d=0):
+    """value image of a RESULT for 'the same call on a freshly built equal network gives the same answer' (held-object family);
+    contains UNSTABLE where the value has no portable image (figures, arbitrary objects): such results are not compared"""
+    if _d > 12:
+        return UNSTABLE
+    if isinstance(v, NETS):
+        try:
+            s = snapshot(v, public_uid=False)
+            return ("net", type(v).__name__, s["nodes"], s["edges"], s["members"], s["node-attrs"], s["edge-attrs"], fz(dict(v._net_attr)))
+        except Exception:  # noqa
+            return UNSTABLE
+    if v is None or isinstance(v, (bool, str, bytes, int, float, complex, np.generic)):
+        return fz(v)
+    if isinstance(v, np.ndarray):
+        return fz(v) if v.dtype != object else UNSTABLE
+    if hasattr(v, "toarray") and hasattr(v, "shape"):
+        try:
+            return ("sparse", tuple(v.shape), fz(np.asarray(v.toarray())))
+        except Exception:  # noqa
+            return UNSTABLE
+    if isinstance(v, dict):
+        return ("dict", tuple((image(k, _d + 1), image(x, _d + 1)) for k, x in v.items()))
+    if isinstance(v, (list, tuple)):
+        return (type(v).__name__, tuple(image(x, _d + 1) for x in v))
+    if isinstance(v, (set, frozenset)):
+        return (type(v).__name__, frozenset(image(x, _d + 1) for x in v))
+    if not _LIVE_CACHE:
+        try:
+            _LIVE_CACHE.append(_view_classes())
+        except Exception:  # noqa
+            _LIVE_CACHE.append(())
+    live = _LIVE_CACHE[0]
+    if live and isinstance(v, live):
+        try:
+            return ("live", type(v).__name__, image(v.asdict() if hasattr(v, "asdict") else list(v), _d + 1))
+        except Exception:  # noqa
+            return UNSTABLE
+    mod = type(v).__module__ or ""
+    if mod.startswith("pandas"):
+        try:
+            return ("pandas", type(v).__name__, image(v.to_dict(), _d + 1))
+        except Exception:  # noqa
+            return UNSTABLE
+    if mod.startswith("networkx"):
+        try:
+            return ("nx", type(v).__name__, image(sorted(map(repr, v.nodes(data=True))), _d + 1), image(sorted(map(repr, v.edges(data=True))), _d + 1))
+        except Exception:  # noqa
+            return UNSTABLE
+    return UNSTABLE
+
+
+def has_unstable(img):
+    if img is UNSTABLE or img == UNSTABLE:
+        return True
+    if isinstance(img, (tuple, frozenset)):
+        return any(has_unstable(x) for x in img)
+    return False
+
+
+def edit_network(H, kind):
+    """edits between two calls on the SAME network object.  kind 'cpe': count-preserving (one edge out, a different one in:
+    same numbers of nodes and edges); 'plain': a node, an edge and two attribute writes.  -> True when the edit was made"""
+    nodes, edges = list(H.nodes), list(H.edges)
+    if H.is_frozen:
+        return False
+    with warnings.catch_warnings():
+        warnings.simplefilter("ignore")
+        try:
+            if kind == "cpe":
+                if isinstance(H, xgi.SimplicialComplex) or not edges or len(nodes) < 3:
+                    return False
+                e = edges[-1]
+                old = set(H.edges.members(e))
+                new = [n for n in nodes if n not in old][:2] + list(old)[:1]
+                if set(new) == old or len(new) < 2:
+                    return False
+                H.remove_edge(e)
+                if is_di(H):
+                    H.add_edge((new[:1], new[1:]))
+                else:
+                    H.add_edge(new)
+                return len(H.nodes) == len(nodes) and len(H.edges) == len(edges)
+            if isinstance(H, xgi.SimplicialComplex):
+                H.add_simplex([nodes[0], "__c08_held__"] if nodes else ["__c08_held__", "__c08_held2__"])
+            elif is_di(H):
+                H.add_edge(([nodes[0]] if nodes else [], ["__c08_held__"]))
+            else:
+                H.add_edge(([nodes[0]] if nodes else []) + ["__c08_held__"])
+            H.set_node_attributes({"__c08_held__": {"weight": 3, "color": "r"}})      # scalars: nothing nested the walk would
+            H["__c08_held_attr__"] = 1                                                 # have to know as caller-supplied
+            return True
+        except Exception:  # noqa
+            return False
 
 
 class CallTimeout(Exception):
